@@ -9,6 +9,7 @@ use serde_json::{json, Value as J};
 
 const KEYS: [&str; 2] = ["a", "b"];
 const SUBS: [&str; 3] = ["x", "size", "y"];
+const PSEUDO: [&str; 4] = ["size", "first", "last", "nosuch"];
 
 #[derive(Default)]
 struct Marker(u64);
@@ -65,6 +66,16 @@ fn observe(rt: &dyn Runtime) -> J {
             });
         }
     }
+    // root names nobody defines, among them the pseudo-keys model/find.rs answers for any object or array
+    let mut u = Vec::new();
+    for k in PSEUDO {
+        let path = [Scalar::new(k)];
+        u.push(rt.try_get(&path).map(|v| enc_view(v.as_view())).unwrap_or(0));
+        u.push(match rt.get(&path) {
+            Ok(v) => enc_view(v.as_view()),
+            Err(_) => 0,
+        });
+    }
     let roots = rt.roots();
     let r: Vec<i64> = KEYS
         .iter()
@@ -75,7 +86,7 @@ fn observe(rt: &dyn Runtime) -> J {
         .iter()
         .map(|k| rt.get_index(k).map(|v| enc_view(v.as_view())).unwrap_or(0))
         .collect();
-    json!({"t": t, "get": g, "r": r, "i": i, "extra_roots": extra_roots})
+    json!({"t": t, "get": g, "r": r, "i": i, "u": u, "extra_roots": extra_roots})
 }
 
 fn check_obs(rt: &dyn Runtime, want: &J, at: &str) -> Result<(), J> {
@@ -84,6 +95,7 @@ fn check_obs(rt: &dyn Runtime, want: &J, at: &str) -> Result<(), J> {
         || got["get"] != want["t"]
         || got["r"] != want["r"]
         || got["i"] != want["i"]
+        || got["u"] != want["u"]
         || got["extra_roots"] != 0;
     if bad {
         Err(json!({"why": "observation differs from LiquidRuntime", "at": at, "got": got, "want": want}))
